@@ -378,7 +378,7 @@ func runC02(ctx Ctx) int {
 		}
 		return true
 	})
-	deadline := devx.Deadline(map[string]time.Duration{"quick": 4 * time.Minute, "thorough": 25 * time.Minute}[run.Tier])
+	deadline := devx.Deadline(map[string]time.Duration{"quick": 4 * time.Minute, "thorough": 15 * time.Minute}[run.Tier])
 	report := func(v c02Verdict, site string, labels []string, rp c02Replay) {
 		run.Evaluations.Add(1)
 		run.Transitions.Add(int64(len(v.Classes)))
